@@ -52,7 +52,7 @@ COST = {"solver_cmd_3": 900, "rej_timeout_3": 900, "rej_csvint_3": 400, "rej_err
 
 QUICK = (["prec_%s_%d" % (o, k) for o in ("int", "bool", "struct") for k in (1, 2, 3)]
          + ["prec_all_1", "prec_all_2", "prec_enum_1", "prec_enum_2", "solver_cmd_1", "solver_cmd_2",
-            "toml_norm", "toml_sections", "toml_unknown_0", "toml_unknown_1", "toml_unknown_2", "toml_unknown_3",
+            "toml_norm", "toml_native", "toml_sections", "toml_unknown_0", "toml_unknown_1", "toml_unknown_2", "toml_unknown_3",
             "rt_csvint_1", "rt_csvint_2", "rt_errcodes_1", "rt_errcodes_2", "rt_errcodes_3",
             "rt_arrlen_1", "rt_arrlen_2", "rt_events",
             "rej_timeout_2", "rej_csvint_2", "rej_errcodes_2", "rej_arrlen_2", "rej_arrlen_3", "rej_events_2"])
@@ -360,6 +360,15 @@ def scoping_worker(tier: str, seed: int) -> dict:
         if ("natspec:A" in scn) != ("natspec:B" in scn) and "cli" not in scn:
             exercised["two_contracts_differ"] += 1
         rows.append(row)
+    for variant in range(3):
+        for style in range(3 if tier == "thorough" else 1):
+            row = {"key": f"same-name/v{variant}/s{style}", "scenario": ["same-name", variant], "style": style}
+            try:
+                bad = E.run_same_name(variant, style)
+                row["bad"], row["again"] = bad[:6], (E.run_same_name(variant, style)[:6] if bad else [])
+            except Exception as e:  # noqa: BLE001
+                row["error"] = f"{type(e).__name__}: {e}"
+            rows.append(row)
     return {"rows": rows, "exercised": {**exercised, "scenarios": len(scns)}}
 
 
